@@ -123,7 +123,7 @@ func scripts() map[string]Script {
 				{K: "delegate", A: 2, V: 3, Den: "aaa", Amt: "77"},
 				{K: "delegate", A: 3, V: 1, Den: "bbb", Amt: "823529"},
 				{K: "delegate", A: 3, V: 2, Den: "bbb", Amt: "500000"},
-				{K: "delegate", A: 4, V: 3, Den: "bbb", Amt: "1234567"},
+				{K: "delegate", A: 4, V: 2, Den: "bbb", Amt: "1234567"},
 				blk(6*time.Second, fee),
 				{K: "block", Block: &BlockSpec{DtNs: int64(6 * time.Second), Fees: fee, Evidence: []Evidence{{Val: 3, HeightBack: 1}}}},
 				blk(61*time.Second, fee),
